@@ -20,7 +20,7 @@ MANIFEST = {
         "text": "Memory-safety and no-abort obligations, bounded: for every byte string up to the per-unit bound, CBMC discharges every bounds, "
                 "dereference, overflow, allocation-size and asserted library-precondition obligation in: DepfileParser::Parse (whole real file), "
                 "DepsLog::Load (sliced; record limit scaled), CanonicalizePath, EncodeJSONString, GetShellEscapedString, CLParser::FilterShowIncludes, "
-                "StripAnsiEscapeCodes. Lexer: the real body of Lexer::Error on every 3-byte text and diagnostic position, and the bounds/pointer obligations of Lexer::ReadEvalString/EatWhitespace (2-byte texts here; the C12 runs carry the same obligations for their longer texts). Not covered: the manifest parser, BuildLog::Load (its reader and field splitter are C08's), MAKEFLAGS and status-format parsing, include recursion "
+                "StripAnsiEscapeCodes. Lexer: the real body of Lexer::Error on every 3-byte text and diagnostic position, and the bounds/pointer obligations of Lexer::ReadEvalString/EatWhitespace (2-byte texts here; the C12 runs carry the same obligations for their longer texts). Not covered: the manifest parser, BuildLog::Load (its reader and field splitter are C08's), the status format string (StatusPrinter::FormatProgressStatus: every 3-byte format in an exact-size buffer; the floating-point ETA arithmetic is not checked). Not covered further: MAKEFLAGS parsing, include recursion "
                 "(a known finding: a manifest that includes itself overflows the stack), hangs (termination is only shown per bound).",
         "design_ref": "DESIGN.md 5 C13",
     },
@@ -120,6 +120,70 @@ B = {
     "quick": {"depfile": [1, 2, 3], "small": [3, 5], "canon": [3, 5, 6], "json": [2, 3], "escape": [2, 3], "deps_T": [4, 8], "deps_layout": [0, 1, 2, 4]},
     "thorough": {"depfile": [1, 2, 3, 4], "small": [4, 7], "canon": [4, 6, 8], "json": [3, 4], "escape": [3, 5], "deps_T": [4, 8, 9, 12], "deps_layout": [0, 1, 2, 3, 4]},
 }
+
+
+STATUSFMT_UNIT = r'''
+#include <stddef.h>
+#include <stdint.h>
+#include <string>
+using namespace std;
+unsigned char nondet_uchar(); int nondet_int(); long nondet_long();
+#define PRId64 "ld"
+static bool vf_fatal_called = false;
+static void vf_fatal() { vf_fatal_called = true; }
+#define Fatal(...) vf_fatal()
+/* contract stub of snprintf: a NUL-terminated text shorter than n */
+static int vf_snprintf(char* s, size_t n) { __CPROVER_assert(n >= 2, "pre snprintf: room for the text"); bool one = nondet_int() != 0; s[0] = one ? '0' : 0; s[1] = 0; return one ? 1 : 0; }      /* loop-free: a text of 0 or 1 bytes */
+#define snprintf(buf, n, ...) vf_snprintf(buf, n)
+#define SnprintfRate(rate, buf, fmt) vf_snprintf(buf, sizeof(buf))      /* status_printer.h: template over the array size; contract: as snprintf */
+struct StatusPrinter {                       /* shadow: the members FormatProgressStatus reads (status_printer.h, conformance-checked) */
+  int started_edges_, finished_edges_, total_edges_, running_edges_;
+  int64_t time_millis_; double time_predicted_percentage_;
+  struct SlidingRateInfo { void UpdateRate(int e, int64_t t) { (void)e; (void)t; } double rate() { return -1; } };
+  mutable SlidingRateInfo current_rate_;
+  string FormatProgressStatus(const char* progress_status_format, int64_t time_millis) const;
+};
+/* ---- verbatim slice of /repo/src/status_printer.cc ---- */
+%(func)s
+/* ---- end ---- */
+extern "C" void harness() {
+  static char fmt[L + 1];                      /* exact-size buffer: reading past the terminating NUL is an out-of-bounds access */
+  for (int i = 0; i < L; i++) { fmt[i] = (char)nondet_uchar(); __CPROVER_assume(fmt[i] != 0); }
+  fmt[L] = 0;
+  StatusPrinter sp;
+  sp.started_edges_ = nondet_int(); sp.finished_edges_ = nondet_int(); sp.total_edges_ = nondet_int(); sp.running_edges_ = nondet_int();
+  __CPROVER_assume(sp.started_edges_ >= 0 && sp.started_edges_ <= 1000000 && sp.finished_edges_ >= 0 && sp.finished_edges_ <= sp.started_edges_ && sp.total_edges_ >= sp.started_edges_ && sp.total_edges_ <= 1000000 && sp.running_edges_ >= 0 && sp.running_edges_ <= 1000);
+  sp.time_millis_ = nondet_long(); __CPROVER_assume(sp.time_millis_ >= 1 && sp.time_millis_ < 100000000);
+  sp.time_predicted_percentage_ = 0.0;          /* ETA not predictable: the floating-point ETA arithmetic is not part of this check */
+  string out = sp.FormatProgressStatus(&fmt[0], 0);
+  __CPROVER_assert(vf_fatal_called || out.size() <= 2 * L, "post C13: a status format string is either formatted or reported as an error");
+  __CPROVER_assert(0, "canary: end of harness reachable");
+}
+'''
+
+
+def _build_statusfmt(L, mutant):
+    from engine.routeb import gotocc_cpp, cbmc_argv, STD, unwindset_from_loops
+    import re as _re
+
+    def build(d):
+        h = slicer.read_src("src/status_printer.h")
+        for rx in [r'int\s+started_edges_,\s*finished_edges_,\s*total_edges_,\s*running_edges_;', r'int64_t\s+time_millis_\s*=\s*0;', r'double\s+time_predicted_percentage_\s*=\s*0\.0;',
+                   r'mutable\s+SlidingRateInfo\s+current_rate_;']:
+            if not _re.search(rx, h):
+                raise slicer.SliceError("shadow StatusPrinter out of date: /%s/" % rx)
+        f = slicer.extract_function("src/status_printer.cc", r'string\s+StatusPrinter::FormatProgressStatus\s*\(')
+        if mutant:
+            f = mutant(f)
+        with open(os.path.join(d, "unit.cc"), "w") as fo:
+            fo.write(STATUSFMT_UNIT % {"func": f})
+        steps = [gotocc_cpp(["unit.cc"], defines=["L=%d" % L, "VF_STR_CAP=%d" % (2 * L + 6)], includes=[os.path.join(VERIF, "stubs", "cstring"), STD, os.path.join(VERIF, "stubs")])]
+
+        def post(dd, av):
+            us, _ = unwindset_from_loops(dd, "a.gb", [("vf_s_", 2 * L + 10), ("append", 2 * L + 10), ("harness.", L + 2)])
+            return av + (["--unwindset", us] if us else [])
+        return steps, cbmc_argv(unwind=L + 4, object_bits=10), post
+    return build
 
 
 LEXER_ERROR_HARNESS = r'''
@@ -228,6 +292,9 @@ def jobs(tier, mutant=None):
     # carry their bounds/pointer obligations in the C12 runs (selected here for the shortest lengths)
     js.append(Job("c13.lexer.error.L3", _build_lexer_error(3, mutant if tgt == "lexer_error" else None), "bounded", timeout=1800,
                   bound="every text of 3 bytes + NUL, every position of the offending token: line/column computation and context snippet", functions=["Lexer::Error"], weight=30))
+    js.append(Job("c13.status_format.L3", _build_statusfmt(3, mutant if tgt == "statusfmt" else None), "bounded", timeout=1800,
+                  bound="every $NINJA_STATUS / --status format of 3 non-NUL bytes in an exact-size buffer (a read past the terminator is out of bounds); counters symbolic, ETA off",
+                  functions=["StatusPrinter::FormatProgressStatus"], weight=30))
     from props import c12
     lm = mutant if tgt is None and mutant is not None and False else None
     for mode, mname in ((0, "value"), (1, "path")):
